@@ -64,7 +64,7 @@ def run(tier):
                                 % (v.trait["path"], got, exp.attr.trait_vis or "(none)", want), where=exp.label())
                 else:
                     parent = crate.get(exp.module)
-                    entries = [c for c in (parent or {}).get("children", []) if c["name"] == exp.attr.trait_name and c["res_kind"] == "Trait"]
+                    entries = [c for c in (parent or {}).get("children", []) if c["name"] == (last_seg(v.trait["path"]) if "$" in exp.attr.trait_name else exp.attr.trait_name) and c["res_kind"] == "Trait"]
                     if not entries:
                         rep.add("R-VIS", key0 + " reexport", "trait `%s` is not nameable from the module's parent `%s`"
                                 % (exp.attr.trait_name, exp.module), where=exp.label())
